@@ -285,6 +285,13 @@ def r09_4(ctx):
                       f"cotangent `{aug.parts[1] if isinstance(aug, Cat) and len(aug.parts) > 1 else None}`; expected "
                       f"`{want0}` and `{want1}` (state reset to the stored solution, output cotangent injected once)",
                       "state reset to ys[i]; cotangent = carried + grad_ys[i]")
+        if saved:
+            aug0 = aps[0][i_y0]
+            ok = isinstance(aug0, Cat) and len(aug0.parts) >= 4 and nf.equal(aug0.parts[2], r["gex"][0])
+            rep.check(ok, "R09.4", astq.loc(bwd), f"{bwd.key}::R09.4::extra-cotangents::{tag}",
+                      f"with saved extras the first adjoint piece starts from `{[str(x)[:40] for x in aug0.parts] if isinstance(aug0, Cat) else aug0}`; "
+                      f"the incoming cotangents of the extra solver state must follow (state, adjoint) in the augmented state",
+                      "grad_extra_solver_state seeds the extra cotangents")
         ok = len(hooks.reverse_args) == 1 and getattr(hooks.reverse_args[0][0], "name", None) == "bm" and \
             len(hooks.adjoint_sde_args) == 1 and getattr(hooks.adjoint_sde_args[0][0], "name", None) == "fwd-sde"
         rep.check(ok, "R09.4", astq.loc(bwd), f"{bwd.key}::R09.4::wrappers::{tag}",
